@@ -95,8 +95,53 @@ theorem sign0_bridge (x : ℚ) : C12Prim.sign0 x = if 0 ≤ x then 1 else -1 := 
 theorem projectToPlane_bridge (P N o : V3) : C12Prim.projectToPlane P N o = Prim.projectToPlane P N o := rfl
 
 theorem intersect2_bridge (p1 d1 p2 d2 : V2) : C12Prim.intersect2 p1 d1 p2 d2 = Prim.intersect2 p1 d1 p2 d2 := by
-  simp only [C12Prim.intersect2, Prim.intersect2, eps12]
+  simp only [C12Prim.intersect2, Prim.intersect2, parallel2, eps12, decide_eq_true_eq]
   norm_num
+
+/-- **the parallelism test does not depend on the lengths of the directions** (the point of the relative threshold: short
+directions - a small mesh - are not "parallel" because they are short) -/
+theorem parallel2_scale_invariant (d1 d2 : V2) (s t : ℚ) (hs : s ≠ 0) (ht : t ≠ 0) :
+    parallel2 (V2.smul s d1) (V2.smul t d2) = parallel2 d1 d2 := by
+  have hpos : 0 < s * s * (t * t) := mul_pos (mul_self_pos.mpr hs) (mul_self_pos.mpr ht)
+  have e1 : det2 (V2.smul s d1) (V2.smul t d2) * det2 (V2.smul s d1) (V2.smul t d2) =
+      s * s * (t * t) * (det2 d1 d2 * det2 d1 d2) := by simp only [det2, V2.smul]; ring
+  have e2 : eps12 * eps12 * V2.norm2 (V2.smul s d1) * V2.norm2 (V2.smul t d2) =
+      s * s * (t * t) * (eps12 * eps12 * V2.norm2 d1 * V2.norm2 d2) := by simp only [V2.norm2, V2.dot, V2.smul]; ring
+  simp only [parallel2, e1, e2, mul_le_mul_iff_right₀ hpos]
+
+/-- exactly parallel directions (and a zero direction) are always reported, at every scale -/
+theorem parallel2_of_det_zero (d1 d2 : V2) (h : det2 d1 d2 = 0) : parallel2 d1 d2 = true := by
+  simp only [parallel2, h, mul_zero, decide_eq_true_eq]
+  have h1 : 0 ≤ V2.norm2 d1 := by simp only [V2.norm2, V2.dot]; nlinarith [mul_self_nonneg d1.x, mul_self_nonneg d1.y]
+  have h2 : 0 ≤ V2.norm2 d2 := by simp only [V2.norm2, V2.dot]; nlinarith [mul_self_nonneg d2.x, mul_self_nonneg d2.y]
+  have h3 : 0 ≤ eps12 * eps12 := mul_self_nonneg _
+  positivity
+
+/-- when the source's `intersect_2lines2D` returns a point, it lies on both lines -/
+theorem intersect2_on_both_lines (p1 d1 p2 d2 p : V2) (h : C12Prim.intersect2 p1 d1 p2 d2 = some p) :
+    (∃ t : ℚ, p = V2.add p1 (V2.smul t d1)) ∧ det2 (V2.sub p p2) d2 = 0 := by
+  rw [intersect2_bridge] at h
+  unfold Prim.intersect2 at h
+  split at h
+  · cases h
+  · rename_i hp
+    simp only [Option.some.injEq] at h
+    have hdet : det2 d1 d2 ≠ 0 := by
+      intro h0
+      exact hp (parallel2_of_det_zero d1 d2 h0)
+    have hden : V2.dot d1 ⟨d2.y, -d2.x⟩ ≠ 0 := by
+      have : V2.dot d1 ⟨d2.y, -d2.x⟩ = det2 d1 d2 := by simp only [V2.dot, det2]; ring
+      rw [this]; exact hdet
+    refine ⟨⟨_, h.symm⟩, ?_⟩
+    subst h
+    simp only [V2.dot] at hden
+    simp only [det2, V2.sub, V2.add, V2.smul, V2.dot]
+    set D := d1.x * d2.y + d1.y * -d2.x with hD
+    set N := (p2.x - p1.x) * d2.y + (p2.y - p1.y) * -d2.x with hN
+    have key : (p1.x + N / D * d1.x - p2.x) * d2.y - (p1.y + N / D * d1.y - p2.y) * d2.x = -N + N / D * D := by
+      rw [hN, hD]; ring
+    rw [key, div_mul_cancel₀ _ hden]
+    ring
 
 theorem clamp_bridge (x : ℚ) : C12Prim.rmax 0 (C12Prim.rmin 1 x) = clamp01 x := by
   unfold C12Prim.rmax C12Prim.rmin clamp01
@@ -129,6 +174,9 @@ theorem signed_angle_source_antisymm (V1 V2 N : V3) (h : V3.dot (V3.cross V1 V2)
   exact Mouette.Props.C12R.signedAngle_antisymm V1 V2 N h
 
 example : C12Prim.intersect2 ⟨0, 0⟩ ⟨1, 0⟩ ⟨2, 5⟩ ⟨0, 1⟩ = some ⟨2, 0⟩ := by decide +kernel
+-- directions of length 2⁻²³ (a mesh of size 1e-7) at a right angle are NOT parallel; the absolute test `|det| < 1e-12` said they were
+example : C12Prim.intersect2 ⟨0, 0⟩ ⟨1 / 8388608, 0⟩ ⟨1 / 8388608, 1⟩ ⟨0, 1 / 8388608⟩ = some ⟨1 / 8388608, 0⟩ ∧
+    Prim.rabs (det2 ⟨1 / 8388608, 0⟩ ⟨0, 1 / 8388608⟩) < eps12 := by decide +kernel
 example : C12Prim.distSeg2 ⟨3, 4⟩ ⟨0, 0⟩ ⟨2, 0⟩ = 17 := by decide +kernel
 
 /-! ### frame conditions, read off the source (`Generated/C12W.lean`) -/
